@@ -124,11 +124,11 @@ func (x *Exec) rootHeap(a *Addr) (name, srt, elemSort string) {
 		return name, srt, x.S.SortOf(a.Struct.Field(a.Field).Type())
 	case akCell:
 		es := x.S.SortOf(a.RootT)
-		name, srt = x.S.CellHeap(es)
+		name, srt = x.S.CellHeapT(a.RootT)
 		return name, srt, es
 	case akElem:
 		es := x.S.SortOf(a.RootT)
-		name, srt = x.S.ElemHeap(es)
+		name, srt = x.S.ElemHeapT(a.RootT)
 		return name, srt, es
 	case akGlobal:
 		es := x.S.SortOf(a.RootT)
